@@ -344,7 +344,43 @@ class Grammar:
         call = init['e']
         if call.get('k') != 'call' or len(call['args']) != 1:
             return None
+        # `wrapper(|| P(s))?` where wrapper(f) runs f once between two effect calls and returns its result (a bracket such as
+        # "select the directive keyword set, parse, restore"): for the grammar it is P applied to s; whether the effects balance is
+        # the business of the state rules (S3, on MIR)
+        a0 = call['args'][0]
+        if sx.is_path(call['f']) and a0.get('k') == 'closure' and not a0.get('params') and self._is_bracket_wrapper(call['f']['p']):
+            inner = a0['body']
+            if inner.get('k') == 'block' and len(inner['stmts']) == 1 and inner['stmts'][0]['k'] == 'expr' and not inner['stmts'][0].get('semi'):
+                inner = inner['stmts'][0]['e']
+            if inner.get('k') == 'call' and len(inner['args']) == 1:
+                return pat['e'][0]['n'], pat['e'][1], inner['f'], inner['args'][0]
         return pat['e'][0]['n'], pat['e'][1], call['f'], call['args'][0]
+
+    def _is_bracket_wrapper(self, name):
+        f = self.fns.get(name.split('::')[-1])
+        if f is None or f.kind == 'parser':
+            return False
+        it = f.item
+        ps = [q for q in it['sig']['params'] if q.get('k') == 'typed']
+        if len(ps) != 1 or not it.get('body'):
+            return False
+        pn = sx.pat_idents(ps[0]['pat'])[0]
+        stmts = it['body']['stmts']
+        if not stmts:
+            return False
+        calls = [n for n in sx.walk(it['body']) if n.get('k') == 'call' and sx.is_path(n['f'], pn) and not n['args']]
+        if len(calls) != 1:
+            return False
+        last = stmts[-1]
+        if last['k'] != 'expr' or last.get('semi'):
+            return False
+        if last['e'] is calls[0]:
+            return True
+        if sx.is_path(last['e']):
+            for st in stmts[:-1]:
+                if st['k'] == 'let' and st.get('init') is calls[0] and st['pat'].get('k') == 'ident' and st['pat']['n'] == last['e']['p']:
+                    return True
+        return False
 
     def _build_body(self, fn, env, report_as=None):
         rep = report_as or fn
